@@ -348,6 +348,232 @@ theorem sendAndRead_refines {T n : Int} (hT : 0 < T) (m : α → Bool) (fl : Nat
     obtain ⟨h1, h2, _⟩ := refines_none (n := n) hT m fl arr hf H
     exact ⟨fun hn hH => by rw [h1 hn hH], h2⟩
 
+/-! ### the context ends / the client is closed during the call -/
+
+/-- the outcome of a context end / Close observed by a waiting call -/
+def stopOutcome (k : Kind) : Outcome := if k = .ctx then .ctxErr else .noResp
+
+/-- **Cancelled context / Close.** The routed stream up to the instant `c` at
+which the caller observes its context's end (`k = ctx`) or the client's Close
+(`k = closed`), `c` strictly before the budget: the call returns the first
+accepted packet of THAT PART of the stream at its arrival instant, and when
+there is none returns at `c` with the context's error / the no-response error.
+Whatever is observed afterwards (`rest`: e.g. the remainder of the stream)
+changes nothing. -/
+theorem refines_stop {T n : Int} (hT : 0 < T) (m : α → Bool) (fl : Nat → Bool) (pre : List (Int × α))
+    (c : Int) (k : Kind) (hk : k = .ctx ∨ k = .closed) (tag : Nat) (after : Bool) (rest : List Obs) (H : Int)
+    (ho : Ordered pre) (hc : ∀ a ∈ pre, a.1 ≤ c) (h0 : 0 ≤ c) (hb : n < 0 ∨ c < budget T n) :
+    match (streamOf pre).find? m with
+    | some p => ∃ i t, pre[i]? = some (t, p) ∧
+        (runObs T n (obsOf m fl pre ++ ⟨c, k, tag, after⟩ :: rest) H).ret = some (t, .resp i)
+    | none => (runObs T n (obsOf m fl pre ++ ⟨c, k, tag, after⟩ :: rest) H).ret = some (c, stopOutcome k) := by
+  cases hf : (streamOf pre).find? m with
+  | some p =>
+    obtain ⟨i, t, hi, _, _, hrun⟩ := refines_some (n := n) hT m fl pre ho p hf
+    refine ⟨i, t, hi, hrun _ H ?_⟩
+    have := hc (t, p) (List.mem_of_getElem? hi)
+    rcases hb with h | h
+    · exact Or.inl h
+    · exact Or.inr (by simp only at this; omega)
+  | none =>
+    have hq : Quiet (obsOf m fl pre) := obsFrom_quiet m fl 0 pre (find_none m pre hf)
+    have hle : ∀ o ∈ obsOf m fl pre, o.t ≤ c := by
+      intro o hoo
+      obtain ⟨a, ha, hta, _⟩ := mem_obsFrom m fl 0 pre o hoo
+      rw [hta]; exact hc a ha
+    have := quiet_then_terminal_ret (n := n) hT (obsOf m fl pre) rest ⟨c, k, tag, after⟩ H hq
+      (by rcases hk with h | h <;> simp [Terminal, h]) h0 hle hb
+    show _ = some (c, stopOutcome k)
+    rw [this]
+    rcases hk with h | h <;> simp [terminalOutcome, stopOutcome, h]
+
+/-- the packet handed to the caller of a cancelled / closed call is `find?` on
+the part of the stream that arrived before -/
+theorem answer_refines_stop {T n : Int} (hT : 0 < T) (m : α → Bool) (fl : Nat → Bool) (pre post : List (Int × α))
+    (c : Int) (k : Kind) (hk : k = .ctx ∨ k = .closed) (tag : Nat) (after : Bool) (H : Int)
+    (ho : Ordered pre) (hc : ∀ a ∈ pre, a.1 ≤ c) (h0 : 0 ≤ c) (hb : n < 0 ∨ c < budget T n) :
+    answer (pre ++ post)
+      (runObs T n (obsOf m fl pre ++ ⟨c, k, tag, after⟩ :: obsFrom m fl pre.length post) H).ret =
+      (streamOf pre).find? m := by
+  have h := refines_stop hT m fl pre c k hk tag after (obsFrom m fl pre.length post) H ho hc h0 hb
+  cases hf : (streamOf pre).find? m with
+  | some p =>
+    rw [hf] at h
+    obtain ⟨i, t, hi, hr⟩ := h
+    rw [hr]
+    have hlt : i < pre.length := (List.getElem?_eq_some_iff.1 hi).1
+    simp [answer, List.getElem?_append_left hlt, hi]
+  | none =>
+    rw [hf] at h
+    rw [h]
+    rcases hk with h | h <;> simp [answer, stopOutcome, h]
+
+/-! ### arrivals at or after the budget are not part of the call -/
+
+/-- an observation the schedule has run out for: after the budget, or on it
+with the last deadline having fired first -/
+def LateObs (T n : Int) (o : Obs) : Prop := off T n.toNat < o.t ∨ (o.t = off T n.toNat ∧ o.afterTimer = true)
+
+theorem stepObs_late {T n : Int} (hT : 0 < T) (hn : 0 ≤ n) (st : CState) (o : Obs) (hl : LateObs T n o)
+    (h : QuietInv T n st) : QuietInv T n (stepObs n st o) := by
+  cases st with
+  | done txs t out => exact h
+  | waiting w =>
+    obtain ⟨g, hclk⟩ := h
+    rw [stepObs_waiting]
+    rcases advance_spec hT (max o.t w.clk) o.afterTimer _ w g (advanceFuel_ok _ _) with
+      ⟨w', hw', g', hclk', hnot, hk'⟩ | ⟨hd, hn0, hle, hk⟩
+    · exfalso
+      have hk : w'.k + 1 ≤ n.toNat := by
+        rcases g'.htries with h | h <;> omega
+      have hmono := off_mono hT hk
+      apply hnot
+      rcases hl with hl | ⟨hl1, hl2⟩
+      · left; omega
+      · by_cases hlt : off T (w'.k + 1) < max o.t w.clk
+        · exact Or.inl hlt
+        · right; exact ⟨hl2, by omega⟩
+    · rw [hd]; exact ⟨rfl, hn0, rfl, rfl⟩
+
+theorem runFrom_late {T n : Int} (hT : 0 < T) (hn : 0 ≤ n) (obs : List Obs) (hl : ∀ o ∈ obs, LateObs T n o) :
+    ∀ st, QuietInv T n st → QuietInv T n (runFrom n st obs) := by
+  induction obs with
+  | nil => intro st h; exact h
+  | cons o obs ih =>
+    intro st h; rw [runFrom_cons]
+    exact ih (fun o' ho' => hl o' (List.mem_cons_of_mem _ ho')) _
+      (stepObs_late hT hn st o (hl o (List.mem_cons_self ..)) h)
+
+/-- Quiet traffic, then ANY observations (acceptable responses included) that
+come after the budget: the full schedule and the no-response error at the
+budget, as if they were not there. -/
+theorem late_ignored {T n : Int} (hT : 0 < T) (hn : 0 ≤ n) (q late : List Obs) (H : Int) (hq : Quiet q)
+    (hl : ∀ o ∈ late, LateObs T n o) (hH : off T n.toNat ≤ H) :
+    runObs T n (q ++ late) H = ⟨sched T n.toNat, some (off T n.toNat, .noResp)⟩ := by
+  have hqi := runFrom_late hT hn late hl _ (runFrom_quiet hT q hq _ (begin_quiet (T := T) n))
+  unfold runObs
+  rw [runFrom_append]
+  cases hst : runFrom n (runFrom n (begin T n) q) late with
+  | done txs t out =>
+    rw [hst] at hqi
+    obtain ⟨h1, _, h3, h4⟩ := hqi
+    rw [finish_done, h1, h3, h4]
+  | waiting w =>
+    rw [hst] at hqi
+    rcases finish_spec hT H w hqi.1 with ⟨k', _, hlt, hk, _⟩ | ⟨hf, _, _⟩
+    · exfalso
+      have : n.toNat < k' + 1 := lt_of_off_lt hT (by omega)
+      omega
+    · exact hf
+
+theorem mem_obsFrom_idx (m : α → Bool) (fl : Nat → Bool) (i : Nat) (arr : List (Int × α)) (o : Obs)
+    (h : o ∈ obsFrom m fl i arr) :
+    ∃ j a, arr[j]? = some a ∧ o = ⟨a.1, kindOf m a.2, i + j, fl (i + j)⟩ := by
+  induction arr generalizing i with
+  | nil => simp [obsFrom] at h
+  | cons x arr ih =>
+    simp only [obsFrom, List.mem_cons] at h
+    rcases h with h | h
+    · exact ⟨0, x, rfl, by simpa using h⟩
+    · obtain ⟨j, a, ha, ho⟩ := ih (i + 1) h
+      refine ⟨j + 1, a, by simpa using ha, ?_⟩
+      rw [ho]
+      have : i + 1 + j = i + (j + 1) := by omega
+      rw [this]
+
+/-- **sendAndRead_refines, arrivals of any instant** (`n ≥ 0`). The routed
+traffic splits into `live` (strictly before the budget) and `late` (on or after
+it; those exactly on it applied after the last deadline fired): the call's
+result is `find?` on `live` alone — late packets, accepted by the matcher or
+not, never reach the caller. -/
+theorem sendAndRead_refines_cut {T n : Int} (hT : 0 < T) (hn : 0 ≤ n) (m : α → Bool) (fl : Nat → Bool)
+    (live late : List (Int × α)) (H : Int) (ho : Ordered live) (hb : ∀ a ∈ live, a.1 < budget T n)
+    (hlate : ∀ a ∈ late, budget T n ≤ a.1) (hfl : ∀ i, live.length ≤ i → fl i = true) :
+    match (streamOf live).find? m with
+    | some p => ∃ i t, live[i]? = some (t, p) ∧
+        (runObs T n (obsOf m fl (live ++ late)) H).ret = some (t, .resp i)
+    | none => budget T n ≤ H →
+        runObs T n (obsOf m fl (live ++ late)) H = ⟨sched T n.toNat, some (budget T n, .noResp)⟩ := by
+  have hsplit : obsOf m fl (live ++ late) = obsOf m fl live ++ obsFrom m fl live.length late := by
+    simp [obsOf, obsFrom_append]
+  rw [hsplit]
+  cases hf : (streamOf live).find? m with
+  | some p =>
+    obtain ⟨i, t, hi, _, _, hrun⟩ := refines_some (n := n) hT m fl live ho p hf
+    exact ⟨i, t, hi, hrun _ H (Or.inr (hb (t, p) (List.mem_of_getElem? hi)))⟩
+  | none =>
+    intro hH
+    refine late_ignored hT hn _ _ H (obsFrom_quiet m fl 0 live (find_none m live hf)) ?_ hH
+    intro o hoo
+    obtain ⟨j, a, ha, rfl⟩ := mem_obsFrom_idx m fl live.length late o hoo
+    have h1 := hlate a (List.mem_of_getElem? ha)
+    have h2 := hfl (live.length + j) (by omega)
+    unfold LateObs
+    rw [budget_eq_off] at h1
+    simp only
+    by_cases h : off T n.toNat < a.1
+    · exact Or.inl h
+    · exact Or.inr ⟨by omega, h2⟩
+
+/-! ### datagrams the caller never sees, interleaved -/
+
+theorem find_terminal_obsFrom (m : α → Bool) (fl : Nat → Bool) (arr : List (Int × α)) :
+    (obsOf m fl arr).find? isTerminal =
+      match (streamOf arr).find? m with
+      | some _ => (obsOf m fl arr).find? isTerminal
+      | none => none := by
+  cases hf : (streamOf arr).find? m with
+  | some p => rfl
+  | none =>
+    show _ = none
+    rw [List.find?_eq_none]
+    intro o ho
+    have := obsFrom_quiet m fl 0 arr (find_none m arr hf) o ho
+    simp [(isTerminal_false_iff o).2 this]
+
+/-- **With unseen traffic interleaved.** `obs` is ANY observation sequence in
+time order whose observations other than `irr` (datagrams for other
+transactions, undecodable ones, ones lost between two tries — any number, at
+any instants, any flags) are exactly the observations of the routed stream
+`arr`: the result is that of the routed stream alone. -/
+theorem refines_with_irrelevant {T n : Int} (hT : 0 < T) (m : α → Bool) (fl : Nat → Bool) (arr : List (Int × α))
+    (obs : List Obs) (H : Int) (ho : OrderedObs obs)
+    (hobs : obs.filter (fun o => o.kind != .irr) = obsOf m fl arr) (hb : InBudget T n arr) :
+    match (streamOf arr).find? m with
+    | some p => ∃ i t, arr[i]? = some (t, p) ∧ (runObs T n obs H).ret = some (t, .resp i)
+    | none => Quiet obs := by
+  have hfind : obs.find? isTerminal = (obsOf m fl arr).find? isTerminal := by
+    rw [← hobs, List.find?_filter]
+    congr 1
+    funext o
+    unfold isTerminal
+    cases o.kind <;> rfl
+  cases hf : (streamOf arr).find? m with
+  | some p =>
+    obtain ⟨pre, t, post, heq, hpre, hp⟩ := find_split m arr p hf
+    subst heq
+    refine ⟨pre.length, t, by simp, ?_⟩
+    have hfo : (obsOf m fl (pre ++ (t, p) :: post)).find? isTerminal =
+        some ⟨t, kindOf m p, pre.length, fl pre.length⟩ := by
+      simp only [obsOf, obsFrom_append, obsFrom, List.find?_append]
+      have : (obsFrom m fl 0 pre).find? isTerminal = none := by
+        rw [List.find?_eq_none]
+        intro o hoo
+        have := obsFrom_quiet m fl 0 pre hpre o hoo
+        simp [(isTerminal_false_iff o).2 this]
+      rw [this]
+      simp [isTerminal, kindOf_acc hp]
+    have hbt : n < 0 ∨ t < off T n.toNat := by
+      by_cases hn : n < 0
+      · exact Or.inl hn
+      · exact Or.inr (hb (by omega) (t, p) (by simp))
+    have := (first_terminal (n := n) hT obs H ho).1 _ (hfind.trans hfo) hbt
+    rw [this]
+    simp [terminalOutcome, kindOf_acc hp]
+  | none =>
+    refine (first_terminal (n := n) hT obs H ho).2 ?_
+    rw [hfind, find_terminal_obsFrom, hf]
+
 /-- **The corollary C13 uses.** Reading the machine's return back as a packet
 gives the abstract call's answer — for every horizon. -/
 theorem answer_refines {T n : Int} (hT : 0 < T) (m : α → Bool) (fl : Nat → Bool) (arr : List (Int × α))
